@@ -1,6 +1,6 @@
 (* Properties_C05.v — C05: output and checkpoints do not depend on worker timing.
    The SDL model's next() takes the arrival SCHEDULE as an argument; the theorems quantify over it. Proofs: SdlMapProofs.v. *)
-From PD Require Import Base SdlModel SdlObs SdlMapProofs SdlIterScope SdlIterSmall SdlIterSmall2 SdlIterProofs.
+From PD Require Import Base SdlModel SdlObs SdlMapProofs SdlIterWorker SdlIterScope SdlIterSmall SdlIterSmall2 SdlIterRef SdlIterProofs.
 Open Scope list_scope. Open Scope nat_scope.
 
 (* map-style: any two arrival schedules give the same epoch *)
@@ -40,6 +40,36 @@ Print Assumptions C05_iter_schedule_independent.
 Corollary C05_iter_statement_holds : C05_iter_statement.
 Proof. intros c Hk HW HP _ _ s1 s2. exact (C05_iter_schedule_independent c Hk HW HP s1 s2). Qed.
 Print Assumptions C05_iter_statement_holds.
+
+(* "a checkpoint never reflects work a fast worker has prefetched beyond the last batch handed to the user" — iterable datasets,
+   PROVED for every configuration, every snapshot interval, every k and EVERY arrival schedule: in the state reached after k
+   batches every worker-state entry of the snapshot state_dict() hands out (and of the running _worker_snapshots) is the state
+   that worker reported right after the answer to one of its tasks that the main process has ALREADY PASSED — a batch handed out,
+   or an end-of-shard notice consumed in task order — or the worker's initial state; never the state after a result that is
+   still buffered in _task_info or outstanding (invariant InvW of SdlIterProofs.v; InvC gives the ghost data their meaning:
+   gw t / rd t = worker and per-worker ordinal of task t, tasks below m_rcvd are the passed ones, wst w j = the state worker w
+   reports after its j-th answer) *)
+Theorem C05_iter_checkpoint_never_ahead : forall c, c_kind c = KIter -> 0 < c_W c -> 0 < c_P c ->
+  forall k sched, k <= length (reference c) ->
+  exists gw rd a R, InvC c (Bw c) 0 gw rd a R (fst (replay c k (sdl_fresh c) sched)) /\
+                    InvW c 0 wk_fresh0 gw rd a (fst (replay c k (sdl_fresh c) sched)).
+Proof. exact iter_entries_never_ahead. Qed.
+Print Assumptions C05_iter_checkpoint_never_ahead.
+
+(* the same, spelled out for the dict that state_dict() returns *)
+Corollary C05_iter_state_dict_entries : forall c, c_kind c = KIter -> 0 < c_W c -> 0 < c_P c ->
+  forall k sched, k <= length (reference c) ->
+  let sk := fst (replay c k (sdl_fresh c) sched) in
+  exists gw rd a R, InvC c (Bw c) 0 gw rd a R sk /\
+    forall w, w < c_W c -> exists j,
+      nth w (sn_workers (sd_snapshot (state_dict sk))) (0, false) = wst c 0 wk_fresh0 w j /\
+      (j = 0 \/ exists t, t < m_rcvd sk /\ gw t = w /\ S (rd t) = j).
+Proof.
+  intros c Hk HW HP k sched Hle. cbn zeta.
+  destruct (iter_entries_never_ahead c Hk HW HP k sched Hle) as (gw & rd & a & R & H & HWw).
+  exists gw, rd, a, R. split; [exact H|]. intros w Hw. exact (w_sn _ _ _ _ _ _ _ HWw w Hw).
+Qed.
+Print Assumptions C05_iter_state_dict_entries.
 
 (* the iterable statement on a SMALL SCOPE (finite-domain theorems by computation in the kernel, SdlIterSmall.v / SdlIterSmall2.v;
    scopes as stated in Properties_C03.v / Properties_C01.v): any two arrival schedules give the same epoch, and the
